@@ -568,7 +568,13 @@ def b_hasattr(interp, args, kwargs, node):
     r = heap.try_hasattr(interp, obj, name, node)
     if r is not heap.NOPE:
         return r
-    raise Unsupported('hasattr on non-object', node)
+    try:
+        interp.getattr(obj, name, node)
+        return True
+    except PyExc as e:
+        if e.typ == 'AttributeError':
+            return False
+        raise
 
 
 def b_getattr(interp, args, kwargs, node):
@@ -1169,17 +1175,22 @@ def nt_tuple_cmp(name, target):
 def x_get_column_letter(interp, args, kwargs, node):
     v = args[0]
     trust(interp, 'A-COLLETTER: openpyxl get_column_letter(c) for 1<=c<=18278 is an injective, '
-                  'non-empty, digit-free rendering COL(c); raises ValueError outside')
+                  'non-empty rendering COL(c) over A-Z; raises ValueError outside')
     if isinstance(v, int):
         if not 1 <= v <= 18278:
             interp.raise_exc('ValueError', 'Invalid column index', node)
     t = as_int_term(v)
-    if interp.ex.branch(z3.Or(t < 1, t > 18278)):
-        interp.raise_exc('ValueError', 'Invalid column index', node)
+    in_range = z3.And(t >= 1, t <= 18278)
+    vr = getattr(interp.world, 'verifier', None)
+    if not (vr is not None and vr.in_spec):
+        # (inside a spec function the rendering is used as a total function)
+        if interp.ex.branch(z3.Not(in_range)):
+            interp.raise_exc('ValueError', 'Invalid column index', node)
     col = uf('COL', I, S)
     inv = uf('COLINV', S, I)
-    interp.ex.assume(inv(col(t)) == t)
-    interp.ex.assume(z3.Length(col(t)) >= 1)
+    interp.ex.add_axiom(z3.Implies(in_range, z3.And(inv(col(t)) == t, z3.Length(col(t)) >= 1,
+                                                    z3.Length(col(t)) <= 3,
+                                                    z3.InRe(col(t), z3.Plus(z3.Range('A', 'Z'))))))
     return mk_str(col(t))
 
 
